@@ -787,6 +787,15 @@ impl<'tcx> Cx<'tcx> {
         J::A(preds.predicates.iter().map(|p| s(format!("{}", p.skip_norm_wip()))).collect())
     }
 
+    /// is the span produced by a `macro_rules!` (or other non-derive macro) defined in this crate?
+    fn local_macro(&self, sp: Span) -> bool {
+        let data = sp.ctxt().outer_expn_data();
+        match data.kind {
+            ExpnKind::Macro(MacroKind::Derive, _) => false,
+            ExpnKind::Macro(_, _) => data.macro_def_id.map(|d| d.is_local()).unwrap_or(false),
+            _ => false,
+        }
+    }
     fn expn_info(&self, sp: Span) -> (bool, Option<String>) {
         let data = sp.ctxt().outer_expn_data();
         match data.kind {
@@ -1103,6 +1112,7 @@ impl rustc_driver::Callbacks for Cb {
                 ("predicates", if matches!(kind, DefKind::Closure) { J::A(vec![]) } else { cx.predicates(did) }),
                 ("pub", vis_pub),
                 ("from_expansion", J::B(sp.from_expansion())),
+                ("macro_local", J::B(cx.local_macro(sp))),
                 ("from_derive", J::B(is_derive)),
                 ("macro", match mac {
                     Some(m) => s(m),
